@@ -127,6 +127,22 @@ def run_python(mode, hist) -> Tuple[List[str], List[str]]:
     return ops, exp
 
 
+def fresh_fd(mode, x) -> np.ndarray:
+    """the finite-difference gradient at x computed from scratch: SciPy's routine with the value f(x) evaluated
+    here and now, stencil points projected on the box as the package does, zero for fixed components"""
+    from scipy.optimize._numdiff import approx_derivative
+
+    def fn(z):
+        if np.iscomplexobj(z):
+            return Fc(z)
+        return F(np.clip(z, LB, UB))
+    if mode is None:    # jac=None: forward differences with the absolute step `epsilon` the wrapper was built with
+        g = approx_derivative(fn, np.array(x, dtype=float), f0=F(x), method="2-point", rel_step=None, abs_step=1e-7, bounds=(LB, UB))
+    else:
+        g = approx_derivative(fn, np.array(x, dtype=float), f0=F(x), method=mode, rel_step=None, abs_step=None, bounds=(LB, UB))
+    return np.where(LB == UB, 0.0, np.atleast_1d(g))
+
+
 def oracle_check(mode, hist) -> List[str]:
     """the property itself, on the real wrapper, with an independent oracle (fresh evaluation)."""
     r = Rec(mode)
@@ -160,12 +176,16 @@ def oracle_check(mode, hist) -> List[str]:
             g = sf.grad(arr)
             if mode == "callable" and vhex(g) != vhex(Gr(PTS[j]) * scale):
                 errs.append(f"op{k}: grad({j}) stale/wrong value")
+            if mode != "callable" and vhex(g) != vhex(fresh_fd(mode, PTS[j]) * scale):
+                errs.append(f"op{k}: grad({j}) differs from the finite-difference gradient computed afresh at that point")
         else:
             v, g = sf.fun_and_grad(arr)
             if fhex(v) != fhex(F(PTS[j]) * scale):
                 errs.append(f"op{k}: fun_and_grad({j}) stale/wrong f")
             if mode == "callable" and vhex(g) != vhex(Gr(PTS[j]) * scale):
                 errs.append(f"op{k}: fun_and_grad({j}) stale/wrong g")
+            if mode != "callable" and vhex(g) != vhex(fresh_fd(mode, PTS[j]) * scale):
+                errs.append(f"op{k}: fun_and_grad({j}) gradient differs from the finite-difference gradient computed afresh")
         new = r.calls[n0:]
         # not re-evaluated at the point it was last evaluated at: consecutive requests at
         # one point (whatever their kind, whatever scale changes in between) evaluate the
